@@ -160,7 +160,7 @@ fn viol(class: &str, detail: String) -> Violation {
 
 /// Does `delta` read as `P ++ data[..n] ++ S` with P: default -> (fg,bg), S: (fg,bg) -> default,
 /// both pure SGR, both empty exactly when no colour was requested?
-fn framing_ok(delta: &[u8], data: &[u8], n: usize, fg: u8, bg: u8) -> Result<(), String> {
+pub fn framing_ok(delta: &[u8], data: &[u8], n: usize, fg: u8, bg: u8) -> Result<(), String> {
     let payload = &data[..n];
     let uncolored = fg == 0 && bg == 0;
     if uncolored {
